@@ -43,7 +43,7 @@ def unchanged(ctx, Y, snap, what):
 @st.composite
 def cases(draw, tier):
     kw = dict(d_max=6, size_max=4096, r_max=6) if tier == "quick" else dict(d_max=8, size_max=2 ** 15, r_max=8)
-    spec = draw(gen.tt_specs(int_storage=True, **kw))
+    spec = draw(gen.tt_specs(int_storage=True, int_mixed=True, **kw))
     # how the caller spells the pivot / core number: a Python int or what NumPy code produces (np.arange, argmax, rng.integers)
     case = {"Y": spec, "hist": [draw(st.integers(0, 7)), draw(st.integers(0, 7)), draw(st.booleans()), draw(st.sampled_from([-2.5, 0.5, 3.0, -1.0]))], "kspell": draw(st.sampled_from(["int", "int", "int64", "int32", "uint8", "intp", "arr0"]))}
     if draw(st.integers(0, 2)) == 0:
@@ -54,7 +54,8 @@ def cases(draw, tier):
         if pat in ("one_huge", "one_tiny"):
             # a single core whose own entries are beyond 1e154 / below 1e-154 (their squares leave the float range), the rest ordinary
             k1 = draw(st.integers(0, d - 1))
-            big = draw(st.integers(520, 900)) * (1 if pat == "one_huge" else -1)
+            # (one_tiny goes down to 2^-1070: the entries of that core are then subnormal numbers, which is still a finite tensor)
+            big = draw(st.integers(520, 1000)) if pat == "one_huge" else -draw(st.sampled_from([draw(st.integers(520, 1000)), draw(st.integers(1000, 1070))]))
             case["shift"] = [big if k == k1 else draw(st.integers(-20, 20)) for k in range(d)]
             case["plain_too"] = True
         else:
@@ -118,6 +119,14 @@ def prop_orth(case, ctx):
         ctx.label("extreme_scale")
         sh = [int(x) for x in case["shift"]]
         Ys = [np.ldexp(G, e_) for G, e_ in zip(Y, sh)]
+        if min(sh) < -960:
+            # entries that became subnormal lost low-order bits: the tensor that was really handed over is Ys, and scaling it back
+            # up is exact, so the reference base tensor is taken from there
+            Y = [np.ldexp(G, -e_) for G, e_ in zip(Ys, sh)]
+            F = dense(Y)
+            nrmY = fro(F)
+            tF = tolF(Y)
+            ctx.label("subnormal_core")
         snap_s = snapshot(Ys)
         for k in range(d):
             res = ctx.lib(teneva.orthogonalize, Ys, sp(k), True)
@@ -132,7 +141,7 @@ def prop_orth(case, ctx):
                           p=p, shift_sum=sum(sh), log2_norm_base=math.log2(nrmY), k=k)
             check_orth(ctx, Y, F, Z, p - sum(sh), k, True, tF, nrmY)
             ctx.inner(1, nontrivial_key=f"x{k}")
-            if case.get("plain_too"):
+            if case.get("plain_too") and min(sh) >= -960 and sum(x for x in sh if x > 0) + (math.log2(nrmY) if nrmY > 0 else 0) < 980:      # (plain variant: only while no partial product overflows and no entry is subnormal - reduced precision there)
                 # the whole tensor is still representable: the plain variant must work as well (2**-sum(shift) removes the scale)
                 Zp = ctx.lib(teneva.orthogonalize, Ys, sp(k), False)
                 why = oracle.wellformed(Zp, oracle.shape_of(Y))
@@ -217,7 +226,7 @@ def prop_step(case, ctx):
                     ctx.check(Z is not Y, f"{fn.__name__}(inplace=False) returned its argument")
                     unchanged(ctx, Y, snap, fn.__name__)
                     ctx.check(all(zg is not yg for zg, yg in zip(Z, Y)), f"{fn.__name__}(inplace=False) shares core objects with its argument")
-                why = oracle.wellformed(Z, n, int_ok=bool(spec.get("store")))     # (the untouched cores keep the caller's storage type)
+                why = oracle.wellformed(Z, n, int_ok=bool(spec.get("store") or spec.get("int_at")))     # (the untouched cores keep the caller's storage type)
                 ctx.check(why is None, f"{fn.__name__}: result not well-formed: {why}")
                 ctx.check(fro(dense(Z) - F) <= tF, f"{fn.__name__}: denoted tensor changed", i=i, err=fro(dense(Z) - F), tol=tF)
                 G = Z[i]
